@@ -122,6 +122,13 @@ CHECKS['C17'] = dict(technique='runtime monitoring: exhaustive pixel sweep throu
                   'model of the precedence rule.',
              note='32-bit pixels are sampled (edge values + random). Entries sharing a path in a directory source are only required to equal one of the candidates (the directory holds one file per path).',
              design='3/C17')
+CHECKS['C03'] = dict(technique='runtime monitoring: boundary-value sweep of every source-settable on-disk field through the real compile command, with an independent layout parser reading the field back and truth itself re-reading the file',
+             text='Exploration. ~130 (field, format) pairs: time labels, opcodes, @mask/@arg0/@pop/@nargs, narrow b/c/s/u arguments, argument-blob and string lengths around 255/32767/65535, fixed 128-byte STD strings, '
+                  'ANM entry and THTX header fields, sprite/script ids, STD layer/anm_script/unknown, MSG table flags, mission.msg entry fields, and sprite/script/object/quad/instance/sub counts at 65534..70000. '
+                  'If the compile succeeds the stored bits must be the requested value (two\'s complement allowed), neighbouring fields and the following instruction must be intact, and truanm/trustd/trumsg/truecl '
+                  'decompile must read the file back; otherwise an error diagnostic is required.',
+             note='Formats without a given field are not swept for it (offset_x/offset_y of ANM v0-v4). Values are limited to the i32 range of source literals. Rejecting an in-range value is counted, not judged.',
+             design='3/C03')
 WIP = {}  # property -> reason (not claimed)
 
 def main():
